@@ -24,7 +24,9 @@ def make_replay(prop, failure, seed):
     found = False
     if failure.get('engine') == 'kani':
         try:
-            inp = kani_playback(failure)
+            inp = None if failure.get('skip_playback') else kani_playback(failure)
+            if failure.get('skip_playback'):
+                doc['note'] = 'counterexample playback is run for the first two failing harnesses of a check only'
             if inp:
                 doc['failing_input'] = inp
                 doc['reexecute'] = inp.get('cmd')
